@@ -273,8 +273,40 @@ def _as_intlike(I, v):
 
 
 class PKwargs:
-    def __init__(self, d):
+    """**kwargs: python-side mapping of keyword -> value.  `entry` marks the kwargs of the function under contract:
+    a keyword read there that the contract gives a type for (types={"kwargs.<name>": T}) is a symbolic value of that
+    type (the contract thereby assumes the keyword is passed); any other keyword is absent."""
+
+    def __init__(self, d, entry=None):
         self.d = d
+        self.entry = entry  # None, or the dict of declared keyword types
+
+
+class PKwGet:
+    def __init__(self, kw):
+        self.kw = kw
+
+
+def kwargs_get(I, pk: "PKwargs", args, fr):
+    st = I.st
+    key = I.to_sv(args[0])
+    kt = smt.simp(key.t)
+    name = None
+    if z3.is_app(kt) and kt.decl().name() == "str" and z3.is_int_value(kt.arg(0)):
+        name = smt.STR.lit(kt.arg(0).as_long())
+    if name is None:
+        raise Refuse("kwargs.get with a computed key")
+    if name in pk.d:
+        return pk.d[name]
+    if pk.entry is not None and name in pk.entry:
+        from .types import parse_ann
+        con = st.cfg["contract"]
+        ty = pk.entry[name]
+        v = SV(z3.Const(f"kw_{name}", Val), ty)
+        st.assume_wt(v)
+        pk.d[name] = v
+        return v
+    return I.to_sv(args[1]) if len(args) > 1 else const(None)
 
 
 def apply_callable(I: Interp, callee, args, kwargs, fr, node=None):
@@ -290,6 +322,8 @@ def apply_callable(I: Interp, callee, args, kwargs, fr, node=None):
     if isinstance(callee, PExt):
         from .lib import call_ext
         return call_ext(I, callee.name, args, kwargs, fr, node)
+    if isinstance(callee, PKwGet):
+        return kwargs_get(I, callee.kw, args, fr)
     if isinstance(callee, PContainerMethod):
         from .lib import call_container_method
         return call_container_method(I, callee.recv, callee.name, args, kwargs, fr, node)
@@ -644,6 +678,13 @@ def apply_contract(I: Interp, con: Contract, finfo: FuncInfo, selfv, args, kwarg
         st.oblige("callpre", f"{finfo.qualname}.{label}@L{line}", spec_bool(I, e, sf), line)
     for label, e in con.axioms:
         st.assume(spec_bool(I, e, sf))
+    if not con.verify and REG.ufuns:
+        import re as _re
+        used = sorted({u for u in REG.ufuns for _l, e in con.ensures if _re.search(r"\b%s\(" % _re.escape(u), e)})
+        if used:
+            m = f"UFUN-ASSUMED {finfo.qualname}: result given by uninterpreted {', '.join(used)} (a native replay cannot realise a model's choice of it)"
+            if m not in st.log:
+                st.log.append(m)
     old = dict(st.heap)
     old["__epoch__"] = st.epoch
     old["__evlen__"] = st.events_len
